@@ -62,6 +62,35 @@ CLAIMED = {
     text="Unbounded over datagram/file contents and lengths (symbolic byte arrays), all verbs and argument-position junk patterns; implicit CPython exceptions (IndexError, struct.error, TypeError, UnicodeDecodeError, ValueError from int()) are modelled as paths and must be infeasible or caught.",
     note="Trusted: PyVC builtin models incl. which builtins raise what; datagram classes for TRXC as listed in the evidence assumptions; trxcon's C receive paths are covered by the C part when present.",
     design="9/C14"),
+ "C07": dict(
+    engine="pyvc+cvc",
+    technique="contract-based deductive verification: Python HoppingParams.__init__/fn2gsm_time/resolve (PyVC, ast of gsm_shared.py) and firmware pow_nbin_mask/rfch_hop_seq_gen/rfch_get_params + rn_table (CVC, clang JSON AST of rfch.c) each proved equal to ONE spec function written from 3GPP TS 45.002 6.2.3; agreement Python == firmware is the corollary; z3",
+    text="Full domain: HSN 0..63, MAIO 0..63, N 1..64 (case split), every FN of the hyperframe symbolic; both 114-entry RNTABLEs compared entry by entry with the standard's values.",
+    note="Trusted: the two VC generators' operator models (bit operations via the shared integer definitions in engine/common/bits.py), clang front end, z3; C ints as mathematical ints with overflow/UB obligations; ARM type sizes for the firmware parse.",
+    design="9/C07"),
+ "C19": dict(
+    engine="pyvc+cvc",
+    technique="contract-based deductive verification: gsm_fn2gsmtime / gsm_gsmtime2fn (gsm_utils.c), l1s_time_inc (sync.c, macro-expanded ADD_MODULO, callee contract) via CVC and HoppingParams.fn2gsm_time via PyVC, all against one decomposition spec; z3 (LIA)",
+    text="All FN of the hyperframe and all deltas 1..2715647 symbolic (stronger than the listed delta set), including the wrap 2715647 -> 0; narrowing conversions and signed overflow are obligations.",
+    note="Trusted: VC generators, clang front end, z3; C ints as mathematical ints + range/UB obligations.",
+    design="9/C19"),
+ "C20": dict(
+    engine="cvc",
+    technique="contract-based deductive verification: CVC VCs from the function text cut verbatim from sysinfo.c (prelude for the missing libosmocore headers), functional + memory-safety contract with three loop invariants (rank / hopping-rank counting functions), every subscript an in-bounds obligation; z3",
+    text="All bitmap lengths 0..255, all bitmap contents, all cell allocations (mask array symbolic), si4 on/off; no bound.",
+    note="Trusted: verbatim extraction drops LOGP (arguments not evaluated); prelude declarations; induction principle for the counting-function lemmas; callers' buffer sizes are pre-conditions.",
+    design="9/C20"),
+ "C08": dict(
+    engine="cvc",
+    technique="contract-based deductive verification: CVC VCs from tdma_sched.c (ARM parse): per-function contracts over the abstract ring view, loop invariant for tdma_schedule_set over counting functions, sort as permutation + ordering, execute/advance/reset; history lemma as inductive invariant; z3",
+    text="All ring positions, frame offsets, priorities (int16), set lengths (loop invariant, not unrolled), any history of operations.",
+    note="Trusted: callbacks return >= 0 and do not touch the scheduler; execute precedes advance in each frame (call-site protocol); induction principle for counting-function lemmas.",
+    design="9/C08"),
+ "C17": dict(
+    technique="contract-based deductive verification: the live trxd_proto PDU objects (structure concrete as built by the real constructors, values and octets symbolic) executed through the real codec.py by PyVC; layout, round trip, decode-any-octets, burst-length table, and the cross lemma with the message codec's layout spec; z3",
+    text="All field values, all 16 modulation codes x NOPE enumerated (each case loop-free, complete), arbitrary input octet strings up to 2048, all valid v0/v1 codec messages incl. legacy padding; batched v2 sub-PDUs proved prefix-decodable (any count via codec.Sequence's law).",
+    note="Trusted: PyVC builtin models (int.from_bytes/to_bytes, bytes.join, slicing); PDU constructors' results taken from the live objects; Sequence repetition law is C16's.",
+    design="9/C17"),
 }
 NOT_YET = "check not built yet in this session (design in DESIGN.md section 9); will be claimed when its obligations are discharged"
 
